@@ -42,6 +42,7 @@ SPECS = {
     "a85hex-roundtrip": ("Eb", lambda t: ["a85hex-roundtrip", "5" if t == "thorough" else "3"], "ASCII85/ASCIIHex: decode(encode_ref(x)) == x"),
     "enc-tables": ("Ec", lambda t: ["enc-tables"], "TextEncoding::{encode_strict, encode, decode} on every one-char string / one-byte slice vs Annex D"),
     "lru": ("Eb", lambda t: ["lru", "8" if t == "thorough" else "6"], "LruCache vs abstract LRU model: every get/put history (bounded) over 4 keys, capacities 0..=4"),
+    "labels": ("Eb", lambda t: ["labels", "20000" if t == "thorough" else "5000"], "decimal/roman format(n) vs reference formatters; PageLabel/PageLabelTree::to_dict read by an independent object-level reader"),
     "letters": ("Eb", lambda t: ["letters", "20000" if t == "thorough" else "5000"], "PageLabelStyle letters format(n) vs ISO and vs bijective base-26"),
 }
 
